@@ -53,6 +53,10 @@ func (e *Engine) execCall(fr *Frame, st *State, instr ssa.Instruction, call *ssa
 			}
 		}
 		key := "(" + types.TypeString(types.Unalias(call.Value.Type()), nil) + ")." + call.Method.Name()
+		if _, ok := e.contracts.Funcs[key]; !ok {
+			// a method promoted from an embedded interface: (io.Writer).Write
+			key = call.Method.FullName()
+		}
 		recv.Typ = call.Value.Type()
 		all := append([]Val{recv}, args...)
 		if fc, ok := e.contracts.Funcs[key]; ok {
@@ -361,6 +365,9 @@ func (e *Engine) callModular(fr *Frame, st *State, fc *FuncContract, name string
 	env := e.calleeEnv(fr, st, pre, fc, sig, invoke, args)
 	if fn := e.calleePkg(name); fn != nil {
 		env.pkg = fn
+	}
+	if fc.Delegate != "" {
+		return e.callDelegate(fr, st, fc, env, resT, pos)
 	}
 	for i, r := range fc.Requires {
 		g := e.evalBool(r.Expr, env)
@@ -868,7 +875,7 @@ func (e *Engine) execAppend(fr *Frame, st *State, call *ssa.CallCommon, args []V
 		e.ctx.Assume(fmt.Sprintf("(=> %s (forall ((j Int)) (! (=> (or (< j (+ %s %s)) (>= j (+ %s %s))) (= (select %s j) (select %s j))) :pattern ((select %s j)))))", fits, off, ln, off, nlen, na, old, na))
 		e.heapSet(st, name, sortM, rref, sx("store", m, rref, na))
 	}
-	return Val{K: KSlice, Typ: call.Args[0].Type(), Fs: []Val{intv(rref), intv(roff), intv(nlen), intv(rcap)}}
+	return Val{K: KSlice, Typ: call.Args[0].Type(), Fs: []Val{intv(rref), intv(roff), intv(nlen), intv(rcap)}, AppOf: ref}
 }
 
 func (e *Engine) execCopy(fr *Frame, st *State, call *ssa.CallCommon, args []Val, pos string) Val {
@@ -900,4 +907,69 @@ func (e *Engine) execCopy(fr *Frame, st *State, call *ssa.CallCommon, args []Val
 		e.heapSet(st, name, sortM, d.Fs[0].T, sx("store", m, d.Fs[0].T, na))
 	}
 	return intv(n)
+}
+
+// callDelegate: a trusted function that formats some bytes and hands them to
+// exactly one call of a method (Write) of one of its arguments.
+func (e *Engine) callDelegate(fr *Frame, st *State, fc *FuncContract, env *Env, resT types.Type, pos string) Val {
+	d := fc.Delegate // "w.Write(out)"
+	i, j, k := strings.Index(d, "."), strings.Index(d, "("), strings.Index(d, ")")
+	if i < 0 || j < i || k < j {
+		cerr("delegate: want param.Method(out)")
+	}
+	pname, mname, oname := d[:i], d[i+1:j], d[j+1:k]
+	recv, ok := env.names[pname]
+	if !ok || recv.K != KIface {
+		cerr("delegate: %s is not an interface parameter", pname)
+	}
+	for _, r := range fc.Requires {
+		g := e.evalBool(r.Expr, env)
+		e.oblige(st, "pre/"+shortName(fc.Name), g, pos, "precondition of "+shortName(fc.Name)+": "+r.Src, fc.Tags)
+	}
+	// the formatted bytes: a fresh slice about which only the ensures-out clauses are known
+	bt := types.NewSlice(types.Typ[types.Uint8])
+	ref := e.freshRef(st, "fmt")
+	ln := e.ctx.Declare("fmtlen", "Int")
+	e.ctx.Assume(and(sx("<=", "0", ln), sx("<=", ln, maxLen)))
+	e.havocArray(st, types.Typ[types.Uint8], ref)
+	out := Val{K: KSlice, Typ: bt, Fs: []Val{intv(ref), intv("0"), intv(ln), intv(ln)}}
+	oenv := *env
+	oenv.names = map[string]Val{}
+	for n, v := range env.names {
+		oenv.names[n] = v
+	}
+	oenv.names[oname] = out
+	oenv.st = st
+	for _, c := range fc.EnsuresOut {
+		e.ctx.Assume(implies(st.pc, e.evalBool(c.Expr, &oenv)))
+	}
+	// dispatch the method
+	e.oblige(st, "safety/nil", not(eq(recv.Fs[0].T, "0")), pos, "method call on nil interface", nil)
+	it, _ := under(recv.Typ).(*types.Interface)
+	var msel *types.Func
+	if it != nil {
+		for m := 0; m < it.NumMethods(); m++ {
+			if it.Method(m).Name() == mname {
+				msel = it.Method(m)
+			}
+		}
+	}
+	if msel == nil {
+		cerr("delegate: interface has no method %s", mname)
+	}
+	mres := msel.Type().(*types.Signature).Results()
+	if kk, ok := litVal(recv.Fs[0].T); ok {
+		if ct, found := typeTagTypes[int(kk)]; found {
+			if m := e.prog.LookupMethod(ct, msel.Pkg(), mname); m != nil {
+				rv := e.unbox(st, recv.Fs[1].T, ct)
+				rv.Typ = ct
+				return e.callFunction(fr, st, m, []Val{rv, out}, nil, mres, pos)
+			}
+		}
+	}
+	key := "(" + types.TypeString(types.Unalias(recv.Typ), nil) + ")." + mname
+	if mc, ok := e.contracts.Funcs[key]; ok {
+		return e.callModular(fr, st, mc, key, msel.Type().(*types.Signature), true, []Val{recv, out}, mres, pos)
+	}
+	return e.callUnknown(fr, st, key, []Val{recv, out}, mres, pos)
 }
